@@ -147,6 +147,79 @@ theorem first_moment_bound_aux {N} (hN : IsSeminormR N) (shape : List Nat) (h : 
   have := hN.sum_le t (fun pw => pw.2) (fun pw a => cellVecR shape U pw.1 (decF shape c) a) hw
   simpa using this
 
+/-! ### weak duality (Kantorovich potential `p` with a cell-wise dual field `g`) -/
+
+/-- pairing a cell field `g` with the centre fluxes moves `g` to the faces: each face sees the mean of `g` (component
+of its normal axis) over its two cells -/
+theorem pairing_identity (shape : List Nat) (h : List Rat) (U : Nat → Rat) (g : Nat → Nat → Rat) :
+    sumTo (numCells shape) (fun c => vol h * sumTo shape.length (fun a => g c a * midFlux shape U a (decF shape c))) =
+      sumTo (numFaces shape) (fun f => vol h * (1 / 2) *
+        (g (conn shape f).1 (faceAxis shape f) + g (conn shape f).2 (faceAxis shape f)) * U f) := by
+  have e1 : ∀ c, c < numCells shape →
+      vol h * sumTo shape.length (fun a => g c a * midFlux shape U a (decF shape c)) =
+      sumTo shape.length (fun a => vol h * (g c a * midFlux shape U a (decF shape c))) := by
+    intro c _; rw [sumTo_mul_left]
+  rw [sumTo_congr e1, sumTo_comm]
+  unfold numFaces
+  rw [sumTo_offset]
+  refine sumTo_congr fun a ha => ?_
+  have e2 : ∀ c, c < numCells shape → vol h * (g c a * midFlux shape U a (decF shape c)) =
+      vol h * (1 / 2) * (g c a * uHi shape U a (decF shape c)) + vol h * (1 / 2) * (g c a * uLo shape U a (decF shape c)) := by
+    intro c _; simp only [midFlux]; ring
+  rw [sumTo_congr e2, sumTo_add, sumTo_mul_left, sumTo_mul_left,
+    sum_coef_uHi shape U (fun c => g c a) a ha, sum_coef_uLo shape U (fun c => g c a) a ha,
+    ← sumTo_mul_left, ← sumTo_mul_left, ← sumTo_add]
+  refine sumTo_congr fun k hk => ?_
+  rw [(face_block shape a k ha hk).1]; ring
+
+/-- weak duality, exact part: for a mass-conserving flux, `Σ_c p_c · vol · f_c` equals the pairing of `g` with the
+centre fluxes whenever on every face the mean of `g` is minus the difference quotient of `p` -/
+theorem dual_identity (shape : List Nat) (h : List Rat) (f U p : Nat → Rat) (g : Nat → Nat → Rat)
+    (hF : Feasible shape h f U)
+    (hc : ∀ k, k < numFaces shape → vol h * (1 / 2) *
+        (g (conn shape k).1 (faceAxis shape k) + g (conn shape k).2 (faceAxis shape k)) =
+        -(area h (faceAxis shape k) * (p (conn shape k).2 - p (conn shape k).1))) :
+    sumTo (numCells shape) (fun c => p c * (vol h * f c)) =
+      sumTo (numCells shape) (fun c => vol h * sumTo shape.length (fun a => g c a * midFlux shape U a (decF shape c))) := by
+  have e : ∀ c, c < numCells shape → p c * (vol h * f c) = p c * divApply shape h U c := fun c hc' => by rw [hF c hc']
+  rw [sumTo_congr e, div_adjoint_aux, pairing_identity, ← sumTo_neg]
+  refine sumTo_congr fun k hk => ?_
+  rw [hc k hk]; ring
+
+/-- **weak duality**: a potential `p` together with a cell field `g` in the polar of the norm (`⟨g_c, v⟩ ≤ N v`),
+coupled on every face by `mean(g) = −Δp / h`, bounds the cost of every mass-conserving flux from below by `Σ_c p_c·vol·f_c`;
+any rule with non-negative weights, total weight 1 and first moments ½. -/
+theorem potential_lower_bound_aux {N} (hN : IsSeminormR N) (shape : List Nat) (h : List Rat) (hv : 0 ≤ vol h)
+    (t : List (List ℝ × ℝ)) (hw : ∀ pw ∈ t, 0 ≤ pw.2) (h0 : (t.map Prod.snd).sum = 1)
+    (h1 : ∀ a, a < shape.length → (t.map fun pw => pw.2 * pw.1.getD a 0).sum = 1 / 2)
+    (f U p : Nat → Rat) (g : Nat → Nat → Rat) (hF : Feasible shape h f U)
+    (hc : ∀ k, k < numFaces shape → vol h * (1 / 2) *
+        (g (conn shape k).1 (faceAxis shape k) + g (conn shape k).2 (faceAxis shape k)) =
+        -(area h (faceAxis shape k) * (p (conn shape k).2 - p (conn shape k).1)))
+    (hg : ∀ c, c < numCells shape → ∀ v : ℕ → ℝ,
+        ((List.range shape.length).map fun a => ((g c a : Rat) : ℝ) * v a).sum ≤ N v) :
+    ((sumTo (numCells shape) (fun c => p c * (vol h * f c)) : Rat) : ℝ) ≤ costR N shape h t 1 U := by
+  have hvR : (0 : ℝ) ≤ (vol h : ℝ) := by exact_mod_cast hv
+  rw [dual_identity shape h f U p g hF hc, cast_sumTo]
+  unfold costR
+  refine List.sum_le_sum fun c hcm => ?_
+  have hc' : c < numCells shape := List.mem_range.1 hcm
+  push_cast
+  rw [cast_sumTo]
+  refine mul_le_mul_of_nonneg_left ?_ hvR
+  -- ⟨g_c, m_c⟩ ≤ N(m_c) ≤ Σ_q w_q N(v_{c,q})
+  have s1 := hg c hc' (fun a => ((midFlux shape U a (decF shape c) : Rat) : ℝ))
+  have s2 := hN.sum_le t (fun pw => pw.2) (fun pw a => cellVecR shape U pw.1 (decF shape c) a) hw
+  have e : (fun a => (t.map fun pw => pw.2 * cellVecR shape U pw.1 (decF shape c) a).sum) =
+      fun a => ((midFlux shape U a (decF shape c) : Rat) : ℝ) := by
+    funext a; exact quad_mean shape U t (decF shape c) a (decF_length shape c) h0 h1
+  rw [e] at s2
+  refine le_trans ?_ (le_trans s1 (le_trans s2 ?_))
+  · refine le_of_eq (congrArg List.sum (List.map_congr_left fun a _ => ?_))
+    push_cast; ring
+  · refine le_of_eq (congrArg List.sum (List.map_congr_left fun pw _ => ?_))
+    simp only [one_mul]
+
 /-- a constant cell weight `k` scales the cost by `|k|` -/
 theorem costR_weight {N} (hN : IsSeminormR N) (shape : List Nat) (h : List Rat) (t : List (List ℝ × ℝ)) (k : ℝ)
     (U : Nat → Rat) : costR N shape h t k U = |k| * costR N shape h t 1 U := by
